@@ -210,7 +210,7 @@ func init() {
 			return simCase{Opt: o, Note: note, Prof: sim.Profile{MinJobConfigs: 1, MaxJobConfigs: 2, MinJobs: 3, MaxJobs: 10, OwnedBias: 92,
 				Policies:       []execution.ConcurrencyPolicy{execution.ConcurrencyPolicyForbid, execution.ConcurrencyPolicyEnqueue, execution.ConcurrencyPolicyEnqueue},
 				MaxConcurrency: 3, Parallel: 15, MaxAttempts: 2, MaxRetryDelay: 3, KillPct: 20, DeletePct: 25, StartAfterPct: 15, Spread: 25, Burst: true, TTL: []int64{5, 30, 120},
-				LateJobConfigs: 35, ForceRemovePct: 8}}
+				LateJobConfigs: 35, ForceRemovePct: 8, CrashAfterDeletePct: 40}}
 		},
 		NonTrivial: func(w *sim.World) bool { return w.Mon.Evals["C05_contended"] > 0 },
 		RacePkgs:   []string{"pkg/execution/controllers/jobqueuecontroller", "pkg/execution/stores/activejobstore", "pkg/utils/atomic", "pkg/execution/util/job"},
@@ -226,7 +226,7 @@ func init() {
 		EvalKeys: []string{"C06", "C06_fix", "C07_fix"},
 		Build: func(env *core.Env, i int, r *rand.Rand) simCase {
 			o := baseOptions(env, i, r)
-			o.Kubelet = sim.KubeletOptions{MaxRun: 20}
+			o.Kubelet = sim.KubeletOptions{MaxRun: 20, LateDie: 4}
 			if i%4 == 1 {
 				o.Faults = &sim.RandomFaults{Pct: 10, Kinds: []sim.FaultKind{sim.F500Before, sim.F409Before}, R: rand.New(rand.NewSource(o.Seed ^ 0xfb)), Until: 300}
 			}
@@ -236,7 +236,7 @@ func init() {
 			}
 			return simCase{Opt: o, Prof: sim.Profile{MinJobConfigs: 1, MaxJobConfigs: 3, MinJobs: 3, MaxJobs: 10, OwnedBias: 95, Policies: pols,
 				MaxConcurrency: 2, Parallel: 10, MaxAttempts: 2, KillPct: 10, DeletePct: 15, StartAfterPct: 35, Spread: 25, Burst: true, TTL: []int64{5, 30, 120},
-				LateJobConfigs: 25, ForceRemovePct: 30}}
+				LateJobConfigs: 25, ForceRemovePct: 30, CrashAfterDeletePct: 25}}
 		},
 		NonTrivial: func(w *sim.World) bool { return w.Mon.Evals["C06"] > 0 },
 	})
@@ -282,8 +282,12 @@ func init() {
 			if i%4 == 3 {
 				o.Faults = &sim.RandomFaults{Pct: 6, Kinds: []sim.FaultKind{sim.F500Before, sim.F409Before}, R: rand.New(rand.NewSource(o.Seed ^ 0xfa1)), Until: 300, ReadPct: 25}
 			}
+			if i%5 == 4 {
+				// the Pod cache is far behind: tasks are created, decided and stopped before the cache has seen them
+				o.Mode, o.DeepLag, o.LagKinds = "lag", true, []sim.Kind{sim.KPod}
+			}
 			return simCase{Opt: o, Prof: sim.Profile{MaxJobConfigs: 1, MinJobs: 1, MaxJobs: 4, OwnedBias: 25, Policies: []execution.ConcurrencyPolicy{execution.ConcurrencyPolicyAllow}, Parallel: 70,
-				MaxAttempts: 4, MaxRetryDelay: 8, KillPct: 8, DeletePct: 5, PendingTimeout: []int64{-1, 10, 25}, TTL: []int64{60, 300}}}
+				MaxAttempts: 4, MaxRetryDelay: 8, KillPct: 8, DeletePct: 5, PendingTimeout: []int64{-1, 10, 25}, TTL: []int64{60, 300}, ForeignPct: 8}}
 		},
 		NonTrivial: func(w *sim.World) bool { return w.Mon.MultiAttemptJobs > 0 },
 		Phases:     []core.Phase{{Name: "algebra", Run: c10Algebra, Count: tierN(1, 8)}},
@@ -317,8 +321,12 @@ func init() {
 			o := baseOptions(env, i, r)
 			o.Kubelet = sim.KubeletOptions{FailRate: 35, NeverSched: 4, LateDie: 4, NeverDie: 4, Flap: 8, ExitOnDelete: 3, MaxRun: 40, SlowStart: 4, Sidecar: 5}
 			o.JobCfg = jobCfg(3600, []int64{0, 15, 900}[r.Intn(3)], []int64{0, 20, 60}[r.Intn(3)])
+			if i%4 == 1 {
+				// transient write failures, also of the very delete that enforces a deadline
+				o.Faults = &sim.RandomFaults{Pct: 15, Kinds: []sim.FaultKind{sim.F500Before, sim.F409Before, sim.F503Before}, R: rand.New(rand.NewSource(o.Seed ^ 0xfc2)), Until: 400}
+			}
 			return simCase{Opt: o, Prof: sim.Profile{MaxJobConfigs: 1, MinJobs: 1, MaxJobs: 4, OwnedBias: 30, Policies: []execution.ConcurrencyPolicy{execution.ConcurrencyPolicyAllow}, Parallel: 45,
-				MaxAttempts: 3, MaxRetryDelay: 15, KillPct: 65, FutureKill: 50, ClearKillPct: 35, DeletePct: 8, StartAfterPct: 15, PendingTimeout: []int64{-1, -1, 0, 6, 20}, ForbidForce: 30, TTL: []int64{600}}}
+				MaxAttempts: 3, MaxRetryDelay: 15, KillPct: 65, FutureKill: 50, ClearKillPct: 35, DeletePct: 8, StartAfterPct: 15, PendingTimeout: []int64{-1, -1, 0, 6, 20}, ForbidForce: 30, TTL: []int64{600}, ForeignPct: 12}}
 		},
 		NonTrivial: func(w *sim.World) bool { return w.Mon.Evals["C12"] > 0 },
 	})
@@ -332,8 +340,12 @@ func init() {
 			o.Kubelet = sim.KubeletOptions{FailRate: 35, NeverSched: 10, LateDie: 3, NeverDie: 8, ExitOnDelete: 4}
 			o.JobCfg = jobCfg([]int64{0, 30, 120}[r.Intn(3)], 900, []int64{0, 30}[r.Intn(2)])
 			o.Horizon = 2 * time.Hour
+			if i%5 == 4 {
+				// the Pod cache is far behind: finished tasks are known from live reads only when the Job is deleted
+				o.Mode, o.DeepLag, o.LagKinds = "lag", true, []sim.Kind{sim.KPod}
+			}
 			return simCase{Opt: o, Prof: sim.Profile{MaxJobConfigs: 1, MinJobs: 1, MaxJobs: 5, OwnedBias: 30, Policies: []execution.ConcurrencyPolicy{execution.ConcurrencyPolicyAllow}, Parallel: 50,
-				MaxAttempts: 2, MaxRetryDelay: 5, KillPct: 15, DeletePct: 60, StartAfterPct: 10, TTL: []int64{-1, 0, 1, 20, 60}, ForeignFinalizerPct: 20}}
+				MaxAttempts: 2, MaxRetryDelay: 5, KillPct: 15, DeletePct: 60, StartAfterPct: 10, TTL: []int64{-1, 0, 1, 20, 60}, ForeignFinalizerPct: 20, EditTTLPct: 25, CrashAfterDeletePct: 15}}
 		},
 		NonTrivial: func(w *sim.World) bool { return w.Mon.Evals["C13"] > 0 },
 	})
